@@ -48,13 +48,24 @@ static lltd_iface_state *g_iface_states = NULL;
 #define log_crit(...) lltd_port_log_warning(__VA_ARGS__)
 #define log_alert(...) lltd_port_log_warning(__VA_ARGS__)
 
+#ifdef LLTD_VERIF_HOOKS
+/* Verification hooks (never defined by the build): yield points at the shared-memory accesses of
+ * the interface registry, provided by the verification harness, and a snapshot of the registry. */
+void lltd_verif_yield(const char *point, void *iface_ctx);
+#define LLTD_VERIF_YIELD(point, ctx) lltd_verif_yield((point), (ctx))
+#else
+#define LLTD_VERIF_YIELD(point, ctx) ((void)0)
+#endif
+
 static lltd_iface_state *lltd_state_for_iface(void *iface_ctx) {
+    LLTD_VERIF_YIELD("registry.lookup", iface_ctx);
     for (lltd_iface_state *cur = g_iface_states; cur != NULL; cur = cur->next) {
         if (cur->iface_ctx == iface_ctx) {
             return cur;
         }
     }
 
+    LLTD_VERIF_YIELD("registry.link", iface_ctx);
     lltd_iface_state *st = (lltd_iface_state *)lltd_port_malloc(sizeof(*st));
     if (!st) {
         return NULL;
@@ -62,9 +73,25 @@ static lltd_iface_state *lltd_state_for_iface(void *iface_ctx) {
     lltd_port_memset(st, 0, sizeof(*st));
     st->iface_ctx = iface_ctx;
     st->next = g_iface_states;
+    LLTD_VERIF_YIELD("registry.publish", iface_ctx);
     g_iface_states = st;
+    LLTD_VERIF_YIELD("registry.published", iface_ctx);
     return st;
 }
+
+#ifdef LLTD_VERIF_HOOKS
+/* interface contexts whose record is reachable from the registry head, newest first */
+size_t lltd_verif_registry_snapshot(void **out_ctx, size_t cap) {
+    size_t n = 0;
+    for (lltd_iface_state *cur = g_iface_states; cur != NULL; cur = cur->next) {
+        if (n < cap) {
+            out_ctx[n] = cur->iface_ctx;
+        }
+        n++;
+    }
+    return n;
+}
+#endif
 
 static void lltd_state_clear_seen_probes(lltd_iface_state *st) {
     if (!st) {
